@@ -217,18 +217,20 @@ def refreshed_operators(rep, rng, mesh, mi):
     from tdgl.solver.options import SparseSolver
     em = mesh.edge_mesh
     E = len(em.edges)
-    mo = MeshOperators(mesh, SparseSolver.SUPERLU, fixed_sites=np.array([], dtype=np.int64), fix_psi=False)
-    meshes.build_like_solver(mo)           # the solver's life cycle: every operator built before the link variables are set / refreshed
-    for k in range(3):
-        mo.set_link_exponents(np.array([[rng.gauss(0, 1), rng.gauss(0, 1)] for _ in range(E)]))
-    H = (sp.diags(mesh.areas) @ mo.psi_laplacian).toarray()
-    if np.max(np.abs(H - H.conj().T)) > 1e-10 * np.max(np.abs(H)):
-        rep.violation("covariant Laplacian in use after in-place refreshes is not Hermitian", {"mesh": mi, "refreshes": 2})
-    mo.set_link_exponents(np.zeros((E, 2)))
-    one = np.ones(len(mesh.sites))
-    if np.max(np.abs(mo.psi_laplacian @ one)) > 1e-9 * np.max(np.abs(mo.psi_laplacian.toarray()).sum(axis=1)):
-        rep.violation("covariant Laplacian refreshed back to A = 0 does not annihilate constants", {"mesh": mi})
-    rep.count(1)
+    for fp in (False, True):
+        # no pinned sites; fix_psi only selects the construction / refresh branch (every edge, the last one included, is refreshed)
+        mo = MeshOperators(mesh, SparseSolver.SUPERLU, fixed_sites=np.array([], dtype=np.int64), fix_psi=fp)
+        meshes.build_like_solver(mo)       # the solver's life cycle: every operator built before the link variables are set / refreshed
+        for k in range(3):
+            mo.set_link_exponents(np.array([[rng.gauss(0, 1), rng.gauss(0, 1)] for _ in range(E)]))
+        H = (sp.diags(mesh.areas) @ mo.psi_laplacian).toarray()
+        if np.max(np.abs(H - H.conj().T)) > 1e-10 * np.max(np.abs(H)):
+            rep.violation("covariant Laplacian in use after in-place refreshes is not Hermitian", {"mesh": mi, "refreshes": 2, "fix_psi": fp})
+        mo.set_link_exponents(np.zeros((E, 2)))
+        one = np.ones(len(mesh.sites))
+        if np.max(np.abs(mo.psi_laplacian @ one)) > 1e-9 * np.max(np.abs(mo.psi_laplacian.toarray()).sum(axis=1)):
+            rep.violation("covariant Laplacian refreshed back to A = 0 does not annihilate constants", {"mesh": mi, "fix_psi": fp})
+        rep.count(1)
 
 
 def run(rep: common.Report, tier: str, seed: int, replay=None) -> int:
